@@ -34,6 +34,9 @@ func genC13(t *rapid.T) C13Case {
 	} else {
 		lim.maxLeaves, lim.maxBlocks, lim.maxAdd = 400, 24, 80
 	}
+	if bigCase(t) { // streams of tens of kilobytes: offsets are then sampled (both ends + drawn windows)
+		lim.maxLeaves, lim.maxBlocks, lim.maxAdd = 900, 10, 400
+	}
 	var c C13Case
 	switch rapid.IntRange(0, 2).Draw(t, "kind") {
 	case 0:
